@@ -168,7 +168,9 @@ func newPluginContainer() *PluginContainer {
 
 func (p *PluginContainer) cloneAndAppendMiddle(plugins ...Plugin) *PluginContainer {
 	middle := newPluginSingleContainer()
-	middle.plugins = append(p.middle.GetAll(), plugins...)
+	// own storage: never append to the parent's slice (siblings would share its spare capacity)
+	middle.plugins = append(middle.plugins, p.middle.GetAll()...)
+	middle.plugins = append(middle.plugins, plugins...)
 
 	newPluginContainer := newPluginContainer()
 	newPluginContainer.middle = middle
